@@ -38,7 +38,7 @@ def plan(tier):
 
 def required(tier):
     base = ["records_judged", "cigar_replays_ok", "reverse_step_records", "fragmented_inputs", "long_indel_reads",
-            "gotoh_optimal_confirmed", "cost_strictly_improved", "post:extract_path", "multi_core_runs", "supplementary_records"]
+            "gotoh_optimal_confirmed", "cost_strictly_improved", "post:extract_path", "multi_core_runs", "supplementary_records", "stdout_output_runs"]
     base += ["span_60000_exact", "passthrough_records", "threshold_straddling_records"]
     return base
 
@@ -137,7 +137,14 @@ def run_case(ctx, rng, index, casedir):
     if cores > 1:
         sit["multi_core_runs"] += 1
     out = os.path.join(casedir, "out.gaf")
-    o = run_cli(["realign", gaf, gpath, fa, "-o", out, "-c", str(cores)])
+    if rng.random() < 0.2:  # default output: stdout
+        o = run_cli(["realign", gaf, gpath, fa, "-c", str(cores)])
+        if o.ok:
+            with open(out, "w") as f:
+                f.write(o.stdout)
+        sit["stdout_output_runs"] += 1
+    else:
+        o = run_cli(["realign", gaf, gpath, fa, "-o", out, "-c", str(cores)])
     sigs = []
     evals = 0
     if not o.ok:
